@@ -79,7 +79,7 @@ DECODE_85 = {'kind': 'fn', 'file': E, 'container': None, 'name': 'decode_85', 'p
 # ---------------------------------------------------------------------------------------------------------------------
 HEX_LOOP = ('let ghost dg = hex_digits(data@); proof { lemma_hex_digits_len(data@); } '
             'let pairs_v = hoist_enumerate_collect(pairs); let mut i_: usize = 0; '
-            'while i_ < pairs_v.len() { let (i, (high, low)) = pairs_v[i_]; let ghost (ch, cl) = (high, low); i_ += 1; ')
+            'while i_ < pairs_v.len() { let (i, (high, low)) = pairs_v[i_]; i_ += 1; ')
 HEX_INV = [
     'i_ <= pairs_v@.len()', 'out@.len() == i_',
     # the pairs the chain delivers are the digits before EOD, white-space dropped, two at a time, the last one completed with 0
@@ -102,7 +102,7 @@ DECODE_HEX = {'kind': 'fn', 'file': E, 'container': None, 'name': 'decode_hex', 
         # R6: iterator loop -> index loop over the collected (index, item) pairs
         {'rule': 'R6', 'find': 'for (i, (high, low)) in pairs.enumerate() {', 'replace': HEX_LOOP},
         {'rule': 'R1', 'regex': r'(out\.push\(([^;]*)\);)',
-         'replace': r'\1 proof { assert(high < 16 && low < 16 ==> (high << 4 | low) == (high * 16 + low) as u8) by (bit_vector); }'},
+         'replace': r'\1 proof { assert(high < 16 && low < 16 ==> (high << 4 | low) == (high * 16 + low) as u8 && (low | high << 4) == (high * 16 + low) as u8) by (bit_vector); }'},
     ]}
 
 DECODE_NIBBLE = {'kind': 'fn', 'file': E, 'container': None, 'name': 'decode_nibble', 'props': DEC,
@@ -123,7 +123,7 @@ FLATE_ENCODE = {'kind': 'fn', 'file': E, 'container': None, 'name': 'flate_encod
         # what flate_decode (zlib first, raw deflate as fallback) makes of it
         ('flate_pairing', 'inflated(r@) == Some(data@)'),
     ]}
-LZW_DECODE = {'kind': 'fn', 'file': E, 'container': None, 'name': 'lzw_decode', 'props': ['C05', 'C16'],
+LZW_DECODE = {'kind': 'fn', 'file': E, 'container': None, 'name': 'lzw_decode', 'props': DEC,
     'ensures': [
         ('lzw_decodes_standard_format', EC01 + ' ==> ((lzw_expand(pdf_lzw_cfg(params.early_change as int), data@) is None ==> r is Err)'
             ' && (lzw_expand(pdf_lzw_cfg(params.early_change as int), data@) matches Some(x) ==> (params.predictor == 1 ==> (r matches Ok(v) && v@ == x))))'),
